@@ -241,7 +241,19 @@ def match_known(pid, v, known):
 
 # ---------------------------------------------------------------- evidence and verdict
 
+def repo_state():
+    """commit and cleanliness of the tree the harness was built from"""
+    try:
+        head = subprocess.run(["git", "-C", REPO, "rev-parse", "--short", "HEAD"], stdout=subprocess.PIPE, text=True, timeout=20).stdout.strip()
+        dirty = subprocess.run(["git", "-C", REPO, "status", "--porcelain", "--untracked-files=no"], stdout=subprocess.PIPE, text=True, timeout=20).stdout.strip() != ""
+        return {"repo": REPO, "head": head, "working_tree_modified": dirty}
+    except Exception as e:
+        return {"repo": REPO, "error": str(e)}
+
+
 def finish(w, pid, coverage, assumptions, violations, known_hits, level="model_checking"):
+    coverage = dict(coverage)
+    coverage["built_from"] = repo_state()
     ev = {
         "property_id": pid, "tier": w.tier, "seed": w.seed, "level": level,
         "coverage": coverage, "assumptions": assumptions,
